@@ -483,7 +483,25 @@ func ruleMergeShape(c *Ctx) {
 						return false
 					}
 					seen[bb] = true
-					for _, sx := range bb.Succs {
+					for si, sx := range bb.Succs {
+						// where a comma-ok lookup of this key in a member map says the member is
+						// absent there is nothing to remove: that edge is not a skipped deletion
+						if iff, ok := lastInstr(bb).(*ssa.If); ok {
+							c0, neg := stripNot(iff.Cond)
+							if ex, ok := c0.(*ssa.Extract); ok && ex.Index == 1 {
+								// (apply mode only: a combined patch must keep the deletion of a member
+								// the first patch does not mention)
+								if lk, ok := ex.Tuple.(*ssa.Lookup); ok && lk.CommaOk && unwrapConv(lk.Index) == unwrapConv(ml.key) && flag != nil && b.underFlagEdge(bb, flag, false) {
+									absentSucc := 1
+									if neg {
+										absentSucc = 0
+									}
+									if si == absentSucc {
+										continue
+									}
+								}
+							}
+						}
 						if walk(sx) {
 							return true
 						}
@@ -1957,6 +1975,11 @@ func (b *Body) diffStoreCensus(l *Ledger, gd *ssa.Function) {
 							why = "the dynamic types differ"
 						}
 					}
+				}
+				// the two values themselves compared with != (they are of one comparable type
+				// behind the type switch): the store lies where they differ
+				if av != nil && ((derivedFromV(bo.X, av) && derivedFromV(bo.Y, bv)) || (derivedFromV(bo.Y, av) && derivedFromV(bo.X, bv))) && (bo.Op == token.NEQ) == f.True {
+					why = "the two values compared unequal"
 				}
 				// a is null and b is not
 				if isNilConst(bo.Y) && bo.X == bv && (bo.Op == token.EQL) != f.True {
